@@ -28,6 +28,7 @@ var commands = map[string]func([]string){
 	"pairs":      cmdPairs,
 	"mutate":     cmdMutate,
 	"concurrent": cmdConcurrent,
+	"kueku":      cmdKuEku,
 }
 
 func main() {
